@@ -80,6 +80,23 @@ func (c *c14Oracle) Check(w *World, o *Obs) []Violation {
 			}
 		}
 	}
+	// "on success the session identifies precisely the pair the provider
+	// reported": a callback that matched the state, exchanged a fresh code and
+	// saved that user must leave the session naming it - also when the
+	// browser was already signed in as somebody else
+	if matches && issued && !faulted && !o.errorOutcome() && o.CodeUnused && st.str("error") == "" {
+		u := w.idpUser(st)
+		want := authboss.MakeOAuth2PID(strings.ToLower(st.str("provider")), u.UID)
+		row := o.RowsAfter[want]
+		gated := row != nil && (w.Cfg.hasModule("lock") && !row.Locked.Before(o.Now) || w.Cfg.hasModule("confirm") && !row.Confirmed)
+		saved := row != nil && (o.RowsBefore[want] == nil || o.RowsBefore[want].canon() != row.canon())
+		if saved && !gated && !login && o.SessAfter["totp_pending"] == "" && o.SessAfter["sms_pending"] == "" {
+			out = append(out, viol("C14", "success_without_identity", st.Kind, o,
+				fmt.Sprintf("the callback saved %q and answered %d %q, yet the session names %q", want, o.Status, o.Location, o.uidAfter()), "had_uid", fmt.Sprint(o.uidBefore() != "")))
+		} else if saved && login && o.uidBefore() != "" && o.uidBefore() != uid {
+			w.Stats.Reach["c14_login_over_other_identity"]++
+		}
+	}
 	if matches && !faulted && !o.errorOutcome() {
 		if o.SessAfter["oauth2_state"] != "" {
 			out = append(out, viol("C14", "state_not_spent", st.Kind, o, "a callback that matched the session state left the state in the session"))
